@@ -2,6 +2,8 @@ import C2paModel.Lemmas.C19Topo
 import C2paModel.Lemmas.C19Ic
 import C2paModel.Lemmas.C19Hb
 import C2paModel.Lemmas.C19C04
+import C2paModel.Lemmas.C19Clean
+import C2paModel.Lemmas.C20Filter
 /-
 C19 — property theorems. The statement (properties.jsonl):
 
@@ -130,6 +132,42 @@ theorem gcrm_outcomes (lim : Nat) (s : Store) (stop : Bool) (root k : Nat) (hr :
   · exact Or.inr (Or.inr (Or.inl h))
   · exact Or.inr (Or.inr (Or.inr h))
   · rw [heq k] at h; exact absurd h hne
+
+/-! ### over-deep graphs: the general statement -/
+
+/-- **ok_within_limit** — if the walk returns `Ok`, every claim reachable from the root is
+reachable on a path of fewer than `lim` edges (the path on which the walker first entered it).
+This holds for every branch of the ingredient loops, every labelling and every root. -/
+theorem gcrm_ok_within_limit (lim : Nat) (s : Store) (stop : Bool) (fuel root : Nat)
+    (hok : (gcrm lim s stop fuel root {}).1 = .ok) :
+    ∀ v, Reach s root v → ∃ k, k < lim ∧ ReachIn s root k v := by
+  intro v hv
+  obtain ⟨_, _, hfin⟩ := gcrm_ok_finish_topological lim s stop fuel root hok
+  obtain ⟨h, _⟩ := gcrm_ok s stop lim fuel root {} (GInv.init s) (fun h => by cases h) hok
+  have hd := (gcrm_depth s stop root lim fuel root {} (GD.init s root lim) rfl).ok hok
+  exact hd.1.minv v (h.inv.fm v (hfin v hv))
+
+/-- `v` is **over-deep**: reachable from the root, and every path from the root to it has at
+least `lim` edges (= passes through more than `lim` claims). -/
+def OverDeep (lim : Nat) (s : Store) (root v : Nat) : Prop :=
+  Reach s root v ∧ ∀ k, ReachIn s root k v → lim ≤ k
+
+/-- **over_deep_rejected** — a graph with an over-deep claim is never walked successfully,
+wherever the long paths hang (first or later ingredient, any labels, shared sub-graphs). -/
+theorem gcrm_over_deep_rejected (lim : Nat) (s : Store) (stop : Bool) (fuel root v : Nat)
+    (hod : OverDeep lim s root v) : (gcrm lim s stop fuel root {}).1 ≠ .ok := by
+  intro hok
+  obtain ⟨k, hk, hin⟩ := gcrm_ok_within_limit lim s stop fuel root hok v hod.1
+  have := hod.2 k hin
+  omega
+
+/-- **rejections have witnesses** — the depth error is returned only when some path from the
+root has `lim` edges or more, `CyclicIngredients` only when a reachable claim lies on a cycle. -/
+theorem gcrm_rejection_witness (lim : Nat) (s : Store) (stop : Bool) (fuel root : Nat) :
+    ((gcrm lim s stop fuel root {}).1 = .tooDeep → ∃ v k, ReachIn s root k v ∧ lim ≤ k) ∧
+    ((gcrm lim s stop fuel root {}).1 = .cyclic → ∃ v, Reach s root v ∧ OnCycle s v) :=
+  let h := gcrm_depth s stop root lim fuel root {} (GD.init s root lim) rfl
+  ⟨h.deep, h.cyc⟩
 
 /-! ### chains -/
 
@@ -429,6 +467,197 @@ theorem validate_dangling_invalid (lim : Nat) (s : Store) (root u v : Nat)
     rw [(hmap v).2]
     exact C04.manifestMissing_not_tolerated
 
+/-- **over_deep_rejected (composed)** — a store with an over-deep claim makes validation fail
+with the depth error (or `CyclicIngredients` when it also has a reachable cycle): never a
+report, hence never Valid. -/
+theorem validate_over_deep_rejected (lim : Nat) (s : Store) (root v : Nat) (hr : root < s.length)
+    (hod : OverDeep lim s root v) :
+    (validate lim s root).out = .tooDeep ∨ (validate lim s root).out = .cyclic := by
+  have hne := gcrm_over_deep_rejected lim s false (s.length + 1 + 0) root v hod
+  have hout := gcrm_outcomes lim s false root 0 hr
+  unfold validate
+  have hs : s[root]? = some s[root] := List.getElem?_eq_getElem hr
+  rw [hs]
+  simp only
+  rw [fuelFor_eq]
+  rcases hout with h | ⟨h, _⟩ | h | ⟨_, h⟩
+  · exact absurd h hne
+  · simp [h]
+  · simp [h]
+  · cases h
+
+/-- … and on an acyclic reachable graph the error is exactly the depth error. -/
+theorem validate_over_deep_acyclic_rejected (lim : Nat) (s : Store) (root v : Nat)
+    (hr : root < s.length) (hod : OverDeep lim s root v)
+    (hac : ∀ w, Reach s root w → ¬ OnCycle s w) : (validate lim s root).out = .tooDeep := by
+  rcases validate_over_deep_rejected lim s root v hr hod with h | h
+  · exact h
+  · exfalso
+    have hg : (gcrm lim s false (fuelFor s) root {}).1 = .cyclic := by
+      unfold validate at h
+      have hs : s[root]? = some s[root] := List.getElem?_eq_getElem hr
+      rw [hs] at h
+      simp only at h
+      by_cases hg : (gcrm lim s false (fuelFor s) root {}).1 = .ok
+      · exact absurd hg (gcrm_over_deep_rejected lim s false _ root v hod)
+      · rw [if_neg hg] at h; exact h
+    obtain ⟨w, hw, hc⟩ := (gcrm_rejection_witness lim s false _ root).2 hg
+    exact hac w hw hc
+
+/-- **wellformed ⇒ clean** (the converse of `validate_clean_wellformed`) — when the part of the
+store reachable from the root has no dangling reference, only paths of fewer than `lim` edges
+(which excludes cycles, `WF.acyclic`), signatures that parse and hashed URIs carrying the right hash, and the active
+claim has a hard binding, the composed walk returns `Ok` and logs no failure. So the model does
+not reject everything, and the depth limit is not off by one (a chain of exactly `lim` claims has
+paths of at most `lim - 1` edges). -/
+theorem validate_wellformed_clean (lim : Nat) (s : Store) (root : Nat) (hwf : WF s root lim)
+    (hbf : ∃ l, (hb lim s (fuelFor s) root []).1 = .found l) :
+    (validate lim s root).isClean = true := by
+  have hac := hwf.acyclic
+  have hr := hwf.root_lt
+  have hs : s[root]? = some s[root] := List.getElem?_eq_getElem hr
+  have hdep := gcrm_depth s false root lim (fuelFor s) root {} (GD.init s root lim) rfl
+  have hg : (gcrm lim s false (fuelFor s) root {}).1 = .ok := by
+    have hout := gcrm_outcomes lim s false root 0 hr
+    rw [← fuelFor_eq] at hout
+    rcases hout with h | ⟨h, _⟩ | h | ⟨_, h⟩
+    · exact h
+    · obtain ⟨v, k, hin, hk⟩ := hdep.deep h
+      have := hwf.depth v k hin
+      omega
+    · obtain ⟨v, hv, hc⟩ := hdep.cyc h
+      exact absurd hc (hac v hv)
+    · cases h
+  have hglog : ∀ e ∈ (gcrm lim s false (fuelFor s) root {}).2.log, e.isFailure = false := by
+    intro e he
+    obtain ⟨u, v, _, hu, hd⟩ := (hdep.ok hg).1.linv e he
+    exact absurd hd (hwf.nd u v hu)
+  have hsig : ¬ s[root].sigOk = false := by
+    rw [hwf.sig root s[root] .refl hs]; decide
+  obtain ⟨hio, hil⟩ := ic_clean s root lim hwf (fuelFor s) 0 root { visited := [root], log := [] }
+    .refl (fun _ h => by cases h)
+  have hiok : (ic lim s (fuelFor s) 0 root { visited := [root], log := [] }).1 = .ok := by
+    rcases hio with h | h
+    · exact h
+    · exact absurd h (ic_fuel_suffices lim s root hr []).1
+  obtain ⟨l, hl⟩ := hbf
+  unfold VRes.isClean validate
+  rw [hs]
+  simp only [hg, if_true, hl]
+  rw [if_neg hsig]
+  simp only [hiok, beq_self_eq_true, Bool.true_and, List.all_eq_true, List.mem_append,
+    List.mem_reverse, List.mem_singleton]
+  rintro e ((he | he) | he)
+  · simp [hglog e he]
+  · subst he; rfl
+  · simp [hil e he]
+
+/-! ### composition with `ValidationResults::from_store` (the real filter) and C04 -/
+
+theorem scopeLog_fst (lim : Nat) (s : Store) (root : Nat) :
+    (scopeLog lim s root).map Prod.fst = (validate lim s root).log := by
+  unfold scopeLog validate
+  cases hs : s[root]? with
+  | none => rfl
+  | some c =>
+    simp only
+    by_cases hg : (gcrm lim s false (fuelFor s) root {}).1 = .ok
+    · simp only [hg, if_true]
+      cases hh : (hb lim s (fuelFor s) root []).1 with
+      | found l =>
+        simp only
+        by_cases hsig : c.sigOk = false
+        · simp [hsig, Function.comp_def]
+        · rw [if_neg hsig, if_neg hsig]
+          simp [Function.comp_def]
+      | none => simp [Function.comp_def]
+      | outOfFuel => simp [Function.comp_def]
+    · rw [if_neg hg, if_neg hg]
+      simp [Function.comp_def]
+
+/-- the missing-manifest event of `get_claim_referenced_manifests` is logged in the scope of the
+active claim -/
+theorem scopeLog_dangling_active (lim : Nat) (s : Store) (root u v : Nat)
+    (hok : (validate lim s root).out = .ok) (hu : Reach s root u) (hd : Dangling s u v) :
+    (Ev.missing v, false) ∈ scopeLog lim s root := by
+  unfold validate at hok
+  unfold scopeLog
+  cases hs : s[root]? with
+  | none => rw [hs] at hok; simp at hok
+  | some c =>
+    rw [hs] at hok
+    simp only at hok ⊢
+    by_cases hg : (gcrm lim s false (fuelFor s) root {}).1 = .ok
+    · have hm := gcrm_dangling_logged lim s false _ root u v hg hu hd
+      have hm' : (Ev.missing v, false) ∈
+          (gcrm lim s false (fuelFor s) root {}).2.log.reverse.map fun e => (e, false) :=
+        List.mem_map.2 ⟨_, List.mem_reverse.2 hm, rfl⟩
+      simp only [hg, if_true] at hok ⊢
+      cases hh : (hb lim s (fuelFor s) root []).1 with
+      | found l =>
+        rw [hh] at hok
+        simp only at hok ⊢
+        by_cases hsig : c.sigOk = false
+        · simp [hsig] at hok
+        · rw [if_neg hsig]
+          exact List.mem_append_left _ (List.mem_append_left _ hm')
+      | none => rw [hh] at hok; simp at hok
+      | outOfFuel => rw [hh] at hok; simp at hok
+    · rw [if_neg hg] at hok
+      exact absurd hok hg
+
+/-- **dangling ⇒ Invalid, through the real `from_store` filter** — when validation returns a
+report although a reachable claim references a missing manifest, the Reader's state is `Invalid`
+
+* for every rendering of the walkers' events as logged statuses (`render`; `verify_claim` logs
+  many) that renders a missing-manifest event as the failure `ingredient.manifest.missing` in
+  the scope the event was logged in,
+* for every URL the statuses carry (`sts` decorates the log),
+* **for every content of the ingredient assertions of the store** (`recs`, written by the signers
+  of the manifests under validation — they may pre-record an equal status), every active label,
+  every initial results value.
+
+The status that survives is the one `get_claim_referenced_manifests` logs: it is logged before
+any ingredient URI is pushed, and `from_store` (after
+`fixes/C20-from-store-active-claim-status-filter.patch`) never filters such a status. The
+second `ingredient.manifest.missing` logged by `ingredient_checks` is ingredient-scoped and *is*
+dropped when pre-recorded; before that repair both were (finding `malformed-reported-valid`,
+replayed by the harness with pre-recorded statuses). -/
+theorem validate_dangling_invalid_filtered (lim : Nat) (s : Store) (root u v : Nat)
+    (hok : (validate lim s root).out = .ok) (hu : Reach s root u) (hd : Dangling s u v)
+    (render : Ev → Bool → List C20.Ev)
+    (hren : ∀ l sc, C20.fail "ingredient.manifest.missing" sc ∈ render (.missing l) sc)
+    (sts : List C20.St)
+    (hdec : C20.Decorates sts ((scopeLog lim s root).flatMap fun p => render p.1 p.2))
+    (active : C34.Str) (recs : List C20.Rec) (uriOf : C20.St → List Char) (r0 r : C04.Results)
+    (h : C20.reportS active recs uriOf r0 sts = some r) : C04.state r = .invalid := by
+  have hm := scopeLog_dangling_active lim s root u v hok hu hd
+  refine C20.active_scope_failure_invalid _ (C20.fail "ingredient.manifest.missing" false) ?_ rfl rfl
+    C04.manifestMissing_not_tolerated sts hdec active recs uriOf r0 r h
+  exact List.mem_flatMap.2 ⟨_, hm, hren v false⟩
+
+/-! ### composed step bound -/
+
+/-- **terminates_poly (composed)** — the three walkers of one `validate` together perform at most
+`3·|V| + (lim + 2)·|E|` counted steps: claim expansions, ingredient-loop iterations (every
+ingredient assertion examined, with or without a manifest reference), label comparisons of the
+cycle test, and claims examined by the hash-binding search. Hash-set and hash-map operations count as
+one step each. -/
+theorem validate_cost_poly (lim : Nat) (s : Store) (root : Nat) (hr : root < s.length) :
+    (gcrm lim s false (fuelFor s) root {}).2.exp + (gcrm lim s false (fuelFor s) root {}).2.insp +
+      (gcrm lim s false (fuelFor s) root {}).2.cmps + (hb lim s (fuelFor s) root []).2.length +
+      (ic lim s (fuelFor s) 0 root { visited := [root], log := [] }).2.exp +
+      (ic lim s (fuelFor s) 0 root { visited := [root], log := [] }).2.insp
+      ≤ 3 * s.length + (lim + 2) * edgeCount s := by
+  obtain ⟨g1, g2, g3⟩ := gcrm_terminates_poly lim s false (fuelFor s) root hr
+  obtain ⟨_, _, h3, _⟩ := binding_search_terminates lim s root hr
+  obtain ⟨i1, i2⟩ := ic_terminates_poly lim s (fuelFor s) root hr []
+  have hh : (hb lim s (fuelFor s) root []).2.length ≤ s.length := h3
+  have hc : lim * (gcrm lim s false (fuelFor s) root {}).2.insp ≤ lim * edgeCount s :=
+    Nat.mul_le_mul_left _ g2
+  rw [Nat.add_mul]
+  omega
+
 /-! ## Non-vacuity and the interpretive point (small limit so that `decide` is cheap) -/
 
 def cl (ings : List (Option Nat)) : Claim :=
@@ -451,6 +680,8 @@ example : ChainPrefix 3 exChain4 := by
   | 1, _ => exact ⟨_, _, _, rfl, rfl, rfl⟩
   | 2, _ => exact ⟨_, _, _, rfl, rfl, rfl⟩
 example : (validate 3 exChain4 0).out = .tooDeep := by decide
+/-- (`cl` builds hashed URIs that do *not* carry the target's hash: a report with
+`ingredient.manifest.mismatch`; the positive witnesses with matching hashes are at the end) -/
 example : (validate 4 exChain4 0).isClean = false ∧ (validate 4 exChain4 0).out = .ok := by decide
 /-- **The interpretive point**: longest path 5 > limit 3, accepted. -/
 theorem dag_not_over_deep : (validate 3 exDag 0).out = .ok := by decide
@@ -463,5 +694,101 @@ example : (validate 200 exDangling 0).out = .ok ∧ Ev.missing 7 ∈ (validate 2
   decide
 example : (hb 200 [ { cl [] with update := true, ings := [{ target := some 1, parent := true, hashOk := false }] },
     cl [] ] 3 0 []).1 = .found 1 := by decide
+
+/-! ### positive witnesses (hashed URIs that match) -/
+
+def clh (ings : List Nat) : Claim :=
+  { ings := ings.map fun t => { target := some t, parent := false, hashOk := true },
+    update := false, hasHash := true, sigOk := true }
+
+def exGoodChain4 : Store := [clh [1], clh [2], clh [3], clh []]
+def exGoodDiamond : Store := [clh [1, 2], clh [3], clh [3], clh []]
+/-- the over-deep chain hangs off the *second* ingredient of the root, labels not in path order -/
+def exSecondDeep : Store := [clh [4, 2], clh [], clh [3], clh [1], clh []]
+
+/-- exactly at the limit: 4 claims, limit 4 — clean; one claim more than the limit — rejected -/
+example : (validate 4 exGoodChain4 0).isClean = true := by decide
+example : (validate 3 exGoodChain4 0).out = .tooDeep := by decide
+example : (validate 3 exGoodDiamond 0).isClean = true := by decide
+example : (validate 3 exSecondDeep 0).out = .tooDeep := by decide
+example : (validate 4 exSecondDeep 0).isClean = true := by decide
+
+theorem exTwo_edge (a b : Nat) : Edge [clh [1], clh []] a b ↔ a = 0 ∧ b = 1 := by
+  constructor
+  · rintro ⟨c, hc, i, hi, ht, _⟩
+    match a with
+    | 0 =>
+      simp only [List.getElem?_cons_zero, Option.some.injEq] at hc
+      subst hc
+      simp [clh] at hi
+      subst hi
+      simp at ht
+      exact ⟨rfl, ht.symm⟩
+    | 1 =>
+      simp at hc
+      subst hc
+      simp [clh] at hi
+    | n + 2 => simp at hc
+  · rintro ⟨rfl, rfl⟩
+    exact ⟨_, rfl, _, List.mem_cons_self .., rfl, by decide⟩
+
+theorem exTwo_reachIn (k v : Nat) (h : ReachIn [clh [1], clh []] 0 k v) :
+    (k = 0 ∧ v = 0) ∨ (k = 1 ∧ v = 1) := by
+  induction h with
+  | refl => exact Or.inl ⟨rfl, rfl⟩
+  | step _ he ih =>
+    obtain ⟨rfl, rfl⟩ := (exTwo_edge _ _).1 he
+    rcases ih with ⟨rfl, _⟩ | ⟨_, h⟩
+    · exact Or.inr ⟨rfl, rfl⟩
+    · cases h
+
+/-- the hypotheses of `validate_wellformed_clean` are satisfiable by a store with an edge -/
+example : WF [clh [1], clh []] 0 2 := by
+  have hreach : ∀ u, Reach [clh [1], clh []] 0 u → u = 0 ∨ u = 1 := by
+    intro u hu
+    obtain ⟨k, hk⟩ := hu.reachIn
+    rcases exTwo_reachIn k u hk with ⟨_, h⟩ | ⟨_, h⟩
+    · exact Or.inl h
+    · exact Or.inr h
+  refine ⟨by decide, ?_, ?_, ?_, ?_⟩
+  · rintro u v hu ⟨c, hc, i, hi, ht, hv⟩
+    rcases hreach u hu with rfl | rfl
+    · simp only [List.getElem?_cons_zero, Option.some.injEq] at hc
+      subst hc
+      simp [clh] at hi
+      subst hi
+      simp at ht
+      subst ht
+      simp at hv
+    · simp at hc
+      subst hc
+      simp [clh] at hi
+  · intro u c hu hc
+    rcases hreach u hu with rfl | rfl
+    · simp at hc; subst hc; rfl
+    · simp at hc; subst hc; rfl
+  · intro u c hu hc i hi v _
+    rcases hreach u hu with rfl | rfl
+    · simp at hc; subst hc; simp [clh] at hi; subst hi; rfl
+    · simp at hc; subst hc; simp [clh] at hi
+  · intro v k hk
+    rcases exTwo_reachIn k v hk with ⟨rfl, _⟩ | ⟨rfl, _⟩ <;> decide
+
+/-- an over-deep claim that `ChainPrefix` does not see (`exSecondDeep`, limit 3): claim 1 is only
+reachable through 0 → 2 → 3 → 1 -/
+example : (validate 3 exSecondDeep 0).out ≠ .ok ∧ ¬ ChainPrefix 3 exSecondDeep := by
+  refine ⟨by decide, ?_⟩
+  rintro ⟨_, h⟩
+  obtain ⟨c, i, rest, hc, hi, ht⟩ := h 0 (by decide)
+  simp [exSecondDeep] at hc
+  subst hc
+  simp [clh] at hi
+  obtain ⟨rfl, _⟩ := hi
+  simp at ht
+
+/-- scopes: the walker's missing event is active-scope, `ingredient_checks`' one is not -/
+example : scopeLog 200 exDangling 0 =
+    [(.missing 7, false), (.verify 0, false), (.mismatch 1, true), (.verify 1, true),
+      (.missing 7, true)] := by decide
 
 end C2pa.C19
